@@ -7,17 +7,34 @@ of every line, version); when the step raises, the observation afterwards must b
   * a call that raises a gfapy.Error and changes the observation   -> "changed-by-failed-<op>-<ErrorClass>"
   * a call that raises anything else is reported                   -> "foreign-exception"
     and, when it also changed the observation                      -> "changed-by-failed-<op>-<ExcClass>"
+  * version unknown, the refused line is a header line that is also refused by a Gfa (same level, version unknown)
+    holding nothing but the header lines accepted so far - so it is refused for what it says itself, no queued
+    line has a part in it - and the observation changed (the version is fixed by the VN tag of a line that was
+    not accepted)                                        -> "changed-by-refused-header-<ErrorClass>[version-unknown]"
+  * a refused set / delete of a field: the tag names of the line and line.get_datatype(field) are read before and
+    after; they must be the same                                   -> "field-changed-by-failed-<op>-<ErrorClass>"
+  * "a caller may catch the error and carry on": when the history is over and nothing was reported, it is run again
+    on a fresh Gfa without one of the refused calls (which one is fixed by the hash of the case); every other call
+    must end as it did the first time (returns / raises the same class) and the final observation must be the same
+                                                                   -> "refused-call-shows-later-<op>"
 
 40% of the calls are built to fail, of every cause the property lists: duplicate identifier (same type / other
 type, incl. a U/O line named like a segment, edge, gap), a link compatible with a stored one, version conflicts
 (GFA2 line into a GFA1 graph and vice versa, wrong VN), malformed fields, inconsistent header values (TS
 conflict, alone or next to a good tag, unsupported VN), contradictory tags of a multi-line group, rename to an
 identifier in use, rm of a missing identifier, illegal edits of connected lines (reference fields, read-only
-fields, invalid tag names) - interleaved with successful calls.
+fields, invalid tag names), at level 3 a new tag with a value that is refused for the datatype its class implies
+(string with tab / newline / non-printable character, empty string, empty list, boolean; 70% followed by a legal set
+of the same tag to a value of another class), a header line with the VN tag of the history's version that
+contradicts an earlier header line in another tag - interleaved with successful calls.
 
 Family "unknown version" (25% of the histories, Gfa() without version): lines may sit in the queue, which has
 no public accessor, so the observation is (str(g), version, names) only; a queued line that is replayed by a
 later call is seen at that later call.
+6% of the histories (always with the version unknown) start with a prelude: optional comment, one or two header lines
+without VN (TS:i:3 and/or, at level >= 2, custom tags), for GFA1 optionally one or two L/C/P lines (queued), then a
+header line that names a supported version in VN (70% the history's, 30% the other one) and is refused for a second TS
+value or (level >= 2) a second datatype of a custom tag; the ordinary history follows.
 
 The history ends at the first report (later steps would only echo it).
 
@@ -29,6 +46,8 @@ add-L/E/G-NotUniqueError with an explicit version = a line that mentions a non-s
 is rejected half-way (rejected line stays in the segment's collections; not in DESIGN 7).
 
 NOT CHECKED:
+  * the continuation without a refused call is run for one refused call per history only, and compares how the calls
+    end and the final observation, not the observation after every call.
   * identity of line objects (a failed call that swaps a line for an equal copy is not noticed).
   * the content of the line queue while the version is unknown (no public accessor).
   * g.unused_name()'s counter (reading it advances it).
@@ -42,14 +61,17 @@ from harness.props import _hist as H
 ID = "C08"
 RULE = ("random histories (4-25 calls quick, up to 60 thorough) with 40% failing calls of every listed cause, interleaved "
         "with successful additions/removals/renames/tag edits, GFA1 and GFA2, validation levels 0-3, 25% with the "
-        "version unknown. Non-trivial: at least one call raised on a Gfa holding at least two lines (decided by the "
+        "version unknown (6%: starting with header lines without VN, optional queued lines and a refused header line "
+        "that names a version); refused set/delete of a field also leaves tag names and datatype of the field; one "
+        "refused call per history is left out of a second run, which must end the same. Non-trivial: at least one call raised on a Gfa holding at least two lines (decided by the "
         "generator's labels: at least one 'fail:' label after two additions). Distinct by case hash.")
 
 PROF = H.profile(p_fail=0.40, close=0.3,
                  fails={"dup-same": 3, "dup-other": 4, "dup-link": 1, "version": 2, "malformed": 3, "header": 3,
                         "grouptag": 3, "rename-existing": 2, "rm-missing": 1, "illegal-edit": 3, "empty-line": 0.3,
                         "mention-nonsegment": 2, "path-nonsegment": 2, "placeholder-def-nonsegment": 2, "header-dt": 3.5,
-                        "rename-invalid": 1, "path-short-overlaps": 1.5})
+                        "rename-invalid": 1, "path-short-overlaps": 1.5, "tag-value": 4, "header-vn-conflict": 1},
+                 header_first=0.06)
 CASE_TIMEOUT = 60
 
 
@@ -110,28 +132,102 @@ def _diff(a, b):
     return " | ".join(out)[:900]
 
 
+def field_obs(line, step):
+    """what the line says about the field a settag / deltag / setfield step names: its tag names and the datatype of
+    that field (the value is part of the written line); never raises"""
+    if line is None or step[0] not in ("settag", "deltag", "setfield"):
+        return None
+    o = {}
+    try:
+        o["tagnames"] = sorted(line.tagnames)
+    except Exception as e:
+        o["tagnames"] = "EXC:" + e.__class__.__name__
+    try:
+        o["datatype of %s" % step[2]] = line.get_datatype(step[2])
+    except Exception as e:
+        o["datatype of %s" % step[2]] = "EXC:" + e.__class__.__name__
+    return o
+
+
+def refused_on_its_own(case, headers, text):
+    """is the header line `text` also refused by a Gfa (same validation level, version unknown) that holds nothing but
+    the header lines accepted so far?  Then no queued line and no other line has a part in the refusal."""
+    g = H.new_gfa(case)
+    for t in headers:
+        if lib.outcome(g.add_line, t)[0] != "ok":
+            return False
+    return lib.outcome(g.add_line, text)[0] != "ok"
+
+
+def _res(r):
+    return r[0] if r[0] in ("ok", "skip") else "%s %s" % (r[0], r[1])
+
+
+def twin_check(case, results, skip, final, full):
+    """the history again, on a fresh Gfa, without the refused call number `skip`: every other call must end as it did
+    (returned / raised the same class) and the final observation must be the same -> failure text or None"""
+    t = H.new_gfa(case)
+    for k, step in enumerate(case["hist"][:len(results)]):
+        if k == skip:
+            continue
+        r = _res(H.apply_step(t, step))
+        if r != results[k]:
+            return "call %d %r: %s after the refused call, %s without it" % (k, step, results[k], r)
+    o = observe(t, full)
+    if "OBS-EXC" not in final and json.dumps(o, sort_keys=True) != json.dumps(final, sort_keys=True):
+        return "final observation (without the refused call -> with it): %s" % _diff(o, final)
+    return None
+
+
 def oracle(case):
     g = H.new_gfa(case)
     full = case["version"] is not None
     before = observe(g, full)
+    headers = []   # header lines accepted so far (version unknown only)
+    results = []   # how every call ended
+    refused = []   # indices of the calls that raised
     for k, step in enumerate(case["hist"]):
         if "OBS-EXC" in before:
             return []  # the Gfa cannot be observed any more (corrupted by a *successful* call: not this property)
-        r = H.apply_step(g, step)
+        line, fb = None, None
+        if step[0] in ("settag", "deltag", "setfield"):
+            rl = lib.outcome(H.resolve, g, H.step_target(step))
+            line = rl[1] if rl[0] == "ok" else None
+            fb = field_obs(line, step)
+        r = H.apply_step(g, step, line) if line is not None else H.apply_step(g, step)
+        results.append(_res(r))
         if r[0] == "skip":
             continue
         after = observe(g, full)
         if r[0] in ("gerr", "foreign"):
+            refused.append(k)
             F = []
             if r[0] == "foreign":
                 F.append("foreign-exception: %s raises %s [step %d %r]" % (H.step_kind(step), r[1], k, step))
             if json.dumps(after, sort_keys=True) != json.dumps(before, sort_keys=True):
-                # the version was still unknown when the call was made: the (open) finding unknown-version-commit
+                # the version was still unknown when the call was made: the (open) finding unknown-version-commit ...
                 unk = "[version-unknown]" if before.get("version") is None else ""
-                F.append("changed-by-failed-%s-%s%s: %s [step %d %r]" % (H.step_kind(step), r[1], unk, _diff(before, after), k, step))
+                sig = "changed-by-failed-%s-%s%s" % (H.step_kind(step), r[1], unk)
+                if unk and step[0] == "add" and step[1].startswith("H") and refused_on_its_own(case, headers, step[1]):
+                    # ... unless the line is a header line that is refused for what it says itself
+                    sig = "changed-by-refused-header-%s%s" % (r[1], unk)
+                F.append("%s: %s [step %d %r]" % (sig, _diff(before, after), k, step))
+            elif fb is not None:
+                fa = field_obs(line, step)
+                if fa != fb:
+                    F.append("field-changed-by-failed-%s-%s: %s [step %d %r]" % (H.step_kind(step), r[1], _diff(fb, fa), k, step))
             if F:
                 return F
+        elif not full and step[0] == "add" and step[1].startswith("H"):
+            headers.append(step[1])
         before = after
+    if refused and "OBS-EXC" not in before:
+        # one of the refused calls (fixed by the case) is left out of a second run of the history
+        skip = refused[int(lib.case_hash(case), 16) % len(refused)]
+        d = twin_check(case, results, skip, before, full)
+        if d is not None:
+            unk = "[version-unknown]" if not full else ""
+            return ["refused-call-shows-later-%s%s: refused call %d %r; %s" % (H.step_kind(case["hist"][skip]), unk, skip, case["hist"][skip], d)]
     return []
 
 
